@@ -616,9 +616,131 @@ def calc_unit():
     return unit
 
 
+# ----------------------------------------------------------------------------------------------------------
+# coordinates.py, _base.py, structures.py, multistructures.py :: the WKT writers   (C13)
+#
+# abstraction (that of Model/Wkt.lean): a float is an opaque `F`, `str(x)` is `io.shw x` (the only thing the writers do with a
+# number); a `Coordinate` is the record `GV.Wkt.Coord F`; a shape is what the WKT code reads of it: a point its coordinate,
+# a linestring its vertices, a polygon-like shape its `bounding_coords()` and its holes' `bounding_coords()` (`GV.Wkt.Poly F`,
+# whatever `k`), a multi-shape the list of its members; a full ring additionally the two circles `GeoCircle(center, r)
+# .bounding_coords()` and what `_draw_bounds()` returns (parameters `outerC innerC outerB innerB`).  Strings are Lean
+# strings: f-strings and `+` are `++`, `sep.join(xs)` is `String.intercalate`.  The method a call reaches is found through
+# the class hierarchy of the four files (C3 order), the instance of a class's writer is the definition *that class* inherits.
+
+WKT_FILES = ('structures.py', 'multistructures.py', '_base.py', 'coordinates.py')
+
+
+def wkt_unit():
+    src = py2lean.SourceSet([_repo(f) for f in WKT_FILES])
+    for t, lt in {'WFl': 'F', 'WCoord': 'GV.Wkt.Coord F', 'Str': 'String', 'WPoint': 'GV.Wkt.Coord F',
+                  'WLine': 'List (GV.Wkt.Coord F)', 'WHole': 'List (GV.Wkt.Coord F)', 'WMPoint': 'List (GV.Wkt.Coord F)',
+                  'WMLine': 'List (List (GV.Wkt.Coord F))', 'WMPoly': 'List (GV.Wkt.Poly F)', 'WRing': 'RingView F',
+                  'WCen': 'Unit', 'WOutR': 'Unit', 'WInR': 'Unit'}.items():
+        py2lean.LEAN_TYPE.setdefault(t, lt)
+    poly_like = {'WPolygon': ('GeoPolygon', 'polygon'), 'WBox': ('GeoBox', 'box'), 'WCircle': ('GeoCircle', 'circle'),
+                 'WEllipse': ('GeoEllipse', 'ellipse')}
+    for t in poly_like:
+        py2lean.LEAN_TYPE.setdefault(t, 'GV.Wkt.Poly F')
+    classes = {'WCoord': 'Coordinate', 'WPoint': 'GeoPoint', 'WLine': 'GeoLineString', 'WMPoint': 'MultiGeoPoint',
+               'WMLine': 'MultiGeoLineString', 'WMPoly': 'MultiGeoPolygon', 'WRing': 'GeoRing'}
+    classes.update({t: c for t, (c, _s) in poly_like.items()})
+
+    def R(cls, attr, after=None):
+        q = src.resolve(cls, attr, after=after)
+        if q is None:
+            raise Unsupported(f'no class of the hierarchy of `{cls}` defines `{attr}`')
+        return q
+
+    RINGS = 'List List WCoord'
+    insts = [
+        Inst('Coordinate.to_str', 'toStr', [('self', 'WCoord')], 'List Str', doc='`reverse` left at its default'),
+        Inst('Coordinate.to_str', 'toStrRev', [('self', 'WCoord'), ('reverse', 'Bool')], 'List Str'),
+        Inst('Coordinate.to_float', 'toFloat', [('self', 'WCoord')], 'List WFl', doc='`reverse` left at its default'),
+        Inst(R('GeoPoint', '_linear_ring_to_wkt'), 'linearRingToWkt', [('ring', 'List WCoord')], 'Str'),
+        Inst(R('GeoPoint', 'centroid'), 'pointCentroid', [('self', 'WPoint')], 'WCoord'),
+        Inst(R('GeoPoint', 'has_z'), 'pointHasZ', [('self', 'WPoint')], 'Bool'),
+        Inst(R('GeoPoint', 'has_m'), 'pointHasM', [('self', 'WPoint')], 'Bool'),
+        Inst(R('GeoPoint', 'to_wkt'), 'pointToWkt', [('self', 'WPoint')], 'Str'),
+        Inst(R('GeoLineString', 'has_z'), 'lineHasZ', [('self', 'WLine')], 'Bool'),
+        Inst(R('GeoLineString', 'has_m'), 'lineHasM', [('self', 'WLine')], 'Bool'),
+        Inst(R('GeoLineString', 'to_wkt'), 'lineToWkt', [('self', 'WLine')], 'Str'),
+    ]
+    for t, (cls, short) in poly_like.items():
+        insts.append(Inst(R(cls, 'linear_rings'), short + 'LinearRings', [('self', t)], RINGS,
+                          doc=f'as `{cls}` inherits it'))
+        insts.append(Inst(R(cls, 'to_wkt'), short + 'ToWkt', [('self', t)], 'Str', doc=f'as `{cls}` inherits it'))
+    ring_to_wkt = R('GeoRing', 'to_wkt')
+    insts += [
+        Inst(R('GeoRing', 'bounding_coords'), 'ringBoundingCoords', [('self', 'WRing')], 'Except List WCoord'),
+        Inst(R('GeoRing', 'linear_rings'), 'ringLinearRings', [('self', 'WRing')], 'Except ' + RINGS),
+        # what `super().to_wkt()` inside GeoRing.to_wkt reaches, on a ring (its `linear_rings()` is GeoRing's)
+        Inst(R('GeoRing', 'to_wkt', after=ring_to_wkt.rsplit('.', 1)[0]), 'ringSuperToWkt', [('self', 'WRing')], 'Except Str',
+             doc='as `super().to_wkt()` of a `GeoRing` reaches it'),
+        Inst(ring_to_wkt, 'ringToWkt', [('self', 'WRing')], 'Except Str'),
+        Inst(R('MultiGeoPoint', 'to_wkt'), 'multiPointToWkt', [('self', 'WMPoint')], 'Str'),
+        Inst(R('MultiGeoLineString', 'to_wkt'), 'multiLineToWkt', [('self', 'WMLine')], 'Str'),
+        Inst(R('MultiGeoPolygon', 'linear_rings'), 'multiPolyLinearRings', [('self', 'WMPoly')], 'List ' + RINGS),
+        Inst(R('MultiGeoPolygon', 'to_wkt'), 'multiPolyToWkt', [('self', 'WMPoly')], 'Str'),
+    ]
+
+    def str_(tr, args):
+        if [a.typ for a in args] != ['WFl']:
+            raise Unsupported('str() of ' + ', '.join(a.typ for a in args))
+        return Val(f'(io.shw {args[0].text})', 'Str')
+
+    def circle(tr, args):
+        # `GeoCircle(self.center, self.outer_radius)` / `… self.inner_radius)`: only its `bounding_coords()` is read
+        which = {('WCen', 'WOutR'): 'outerC', ('WCen', 'WInR'): 'innerC'}.get(tuple(a.typ for a in args))
+        if which is None or any(a.path is None or not a.path.startswith('self.') for a in args):
+            raise Unsupported('GeoCircle(' + ', '.join(a.typ for a in args) + ')')
+        return Val(f'{tr.env["self"].text}.{which}', 'WHole')
+
+    def super_method(tr, attr, args):
+        # `super().m(**kwargs)` inside a method of class C on a receiver of class D: the next definition behind C in D's order
+        owner = tr.inst.qual.rsplit('.', 1)[0]
+        recv = tr.env.get('self')
+        cls = tr.u.class_of(recv.typ) if recv else None
+        q = src.resolve(cls, attr, after=owner) if cls else None
+        if q is None or args:
+            raise Unsupported(f'`{tr.inst.qual}`: super().{attr}')
+        return tr.apply(tr.u.find(q, (), recv=recv.typ), [recv])
+
+    attr = {('WCoord', 'longitude'): ('{}.lon', 'WFl'), ('WCoord', 'latitude'): ('{}.lat', 'WFl'),
+            ('WCoord', 'z'): ('{}.z', 'Opt WFl'), ('WCoord', 'm'): ('{}.m', 'Opt WFl'),
+            ('WPoint', 'coordinate'): ('{}', 'WCoord'), ('WLine', 'vertices'): ('{}', 'List WCoord'),
+            ('WMPoint', 'geoshapes'): ('{}', 'List WPoint'), ('WMLine', 'geoshapes'): ('{}', 'List WLine'),
+            ('WMPoly', 'geoshapes'): ('{}', 'List WPolygon'),
+            ('WRing', 'holes'): ('{}.holes', 'List WHole'), ('WRing', 'angle_min'): ('{}.amin', 'R'),
+            ('WRing', 'angle_max'): ('{}.amax', 'R'), ('WRing', 'center'): ('()', 'WCen'),
+            ('WRing', 'outer_radius'): ('()', 'WOutR'), ('WRing', 'inner_radius'): ('()', 'WInR')}
+    abstract = {('WHole', 'bounding_coords', ()): ('{0}', 'List WCoord'),
+                ('WRing', '_draw_bounds', ()): ('({0}.outerB, {0}.innerB)', 'Prod (List WCoord) (List WCoord)')}
+    for t in poly_like:
+        attr[(t, 'holes')] = ('{}.holes', 'List WHole')
+        attr[(t, 'outline')] = ('{}.outline', 'List WCoord')
+        abstract[(t, 'bounding_coords', ())] = ('{0}.outline', 'List WCoord')
+    header = '\n'.join([
+        'variable {F : Type}', '',
+        '/-- what the WKT writers read of a `GeoRing`: the two angles, `GeoCircle(center, outer_radius / inner_radius)',
+        '    .bounding_coords(**kwargs)`, the pair `_draw_bounds(**kwargs)` returns, and the holes\' `bounding_coords(**kwargs)` -/',
+        'structure RingView (F : Type) where',
+        '  amin : Rat', '  amax : Rat',
+        '  outerC : List (GV.Wkt.Coord F)', '  innerC : List (GV.Wkt.Coord F)',
+        '  outerB : List (GV.Wkt.Coord F)', '  innerB : List (GV.Wkt.Coord F)',
+        '  holes : List (List (GV.Wkt.Coord F))'])
+    return Unit('SrcWkt', src, 'GV.Src.Wkt', ['GeoVerif.Model.Wkt', 'GeoVerif.Model.PyPrelude'], insts, classes,
+                header=header, attr_types=attr, abstract=abstract,
+                intrinsics={'str': str_, 'GeoCircle': circle},
+                hooks={'isinstance': lambda typ: None, 'strings': True, 'sequences': True, 'resolve': src.resolve,
+                       'super_method': super_method,
+                       'local_type': lambda qual, name: {'bbox_strs': 'List Str'}.get(name) if qual.endswith('.to_wkt') else None},
+                ctx_params=[('io', 'GV.Wkt.NumIO F')])
+
+
 UNITS = {'SrcTime': time_unit, 'SrcBase': base_unit, 'SrcMulti': multi_unit, 'SrcColl': coll_unit, 'SrcPip': pip_unit,
          'SrcMember': member_unit, 'SrcTrack': track_unit, 'SrcRelate': relate_unit, 'SrcCoord': coord_unit,
          'SrcCurved': curved_unit, 'SrcCalc': calc_unit}
+UNITS['SrcWkt'] = wkt_unit
 
 
 def render(name):
